@@ -1535,7 +1535,7 @@ def _collect_block(lines: List[str], start: int) -> Tuple[List[str], int]:
     i = start + 1
     block: List[str] = []
     while i < len(lines):
-        if not lines[i].strip():
+        if not _strip_inline_comment(lines[i]).strip():
             block.append(lines[i]); i += 1; continue
         if _indent_of(lines[i]) <= base:
             break
